@@ -94,7 +94,7 @@ func raceRun(run *core.Run, mix string, rounds int, repeats int) {
 	for rep, jb := range jobs {
 		outFile := filepath.Join(tmp, fmt.Sprintf("out-%d.json", rep))
 		logPrefix := filepath.Join(tmp, fmt.Sprintf("race-%d", rep))
-		cmd := exec.Command(bin, "-test.run", "^"+jb.test+"$", "-test.count=1", "-test.timeout=20m")
+		cmd := exec.Command(bin, "-test.run", "^"+jb.test+"$", "-test.count=1", "-test.timeout=8m")
 		cmd.Dir = filepath.Join(srcDir(), "racetests")
 		cmd.Env = append(os.Environ(),
 			"GORACE=halt_on_error=0 log_path="+logPrefix,
